@@ -229,8 +229,8 @@ def describe(trace, rej):
                 dict(id="replay/0", kind="vrows", strs=[a, b], rows=[1, 2]))
     if ev["ev"] == "erow" and len(at) == 2:
         a, b = trace["evrs"][at[0] - 1], trace["evrs"][at[1] - 1]
-        return ("InstalledRpm %s vs %s: rpm_version_compare observed %s, operators [<,==,>,<=,>=,!=] observed %s"
-                % (show_evr(a), show_evr(b), ev["cmp"][at[1] - 1], ev["ops"][at[1] - 1]),
+        return ("%s %s vs %s %s: rpm_version_compare observed %s, operators [<,==,>,<=,>=,!=] observed %s"
+                % (ev["lc"], show_evr(a), ev["rc"], show_evr(b), ev["cmp"][at[1] - 1], ev["ops"][at[1] - 1]),
                 dict(id="replay/0", kind="erows", evrs=[a, b], rows=[1, 2], sel=[], variant=0))
     if ev["ev"] == "sel":
         pk = [trace["evrs"][i - 1] for i in ev["pk"]]
@@ -328,8 +328,10 @@ def run(prop, tier):
     print("timing: drivers %.1fs, %d traces, %s" % (time.time() - t1, len(traces), stats))
     vias = ["json", "line", "yum-installed", "yum-available", "mixin", "extended"]
     vacuous = None
+    pairs = ["InstalledRpm_InstalledRpm", "YumListRpm_InstalledRpm", "InstalledRpm_YumListRpm", "YumListRpm_YumListRpm",
+             "OwnRpm_InstalledRpm", "InstalledRpm_OwnRpm", "OwnRpm_YumListRpm"]
     if not stats.get("vercmp_calls") or not stats.get("op_calls") or not stats.get("sel_calls") \
-            or any(not stats.get("sel_" + v) for v in vias):
+            or any(not stats.get("sel_" + v) for v in vias) or any(not stats.get("pair_" + v) for v in pairs):
         vacuous = "driver did not reach all of the code under test (every kind of RpmList included): %s" % stats
 
     t1 = time.time()
